@@ -51,16 +51,24 @@ namespace ikos {
 
 /* Notes about the % operator
  *
- * The semantics of r = n % d is to set r to "n mod d". The sign of
- * the d is ignored and r is always non-negative.
+ * r = n % d is the remainder of the truncating division (mpz_tdiv_r):
+ * the sign of d is ignored and r has the sign of n. Code that needs a
+ * non-negative remainder must add |d| to a negative r (see normalize).
  *
  * We assume that n % d (also n /d) raises a runtime error if d==0.
  */
 
 template <typename Number> void congruence<Number>::normalize(void) {
-  // Set to standard form: 0 <= b < a for a != 0
+  // Set to standard form: a >= 0 and 0 <= b < a for a != 0
+  if (m_a < 0) {
+    m_a = -m_a;
+  }
   if (m_a != 0) {
+    // operator% truncates: the remainder has the sign of m_b
     m_b = m_b % m_a;
+    if (m_b < 0) {
+      m_b = m_b + m_a;
+    }
   }
 }
 
